@@ -44,6 +44,8 @@ pub struct RunStats {
     pub probes: BTreeMap<String, u64>,
     /// oracle evaluations performed (clause -> count)
     pub oracle_evals: BTreeMap<String, u64>,
+    /// largest number of nodes one worker searched after a cancellation signal
+    pub post_cancel_max: u64,
 }
 
 impl RunStats {
